@@ -82,6 +82,11 @@ def call_apply_actions(domain, state, members, allow, objects):
     return apply_actions(domain, state, calls, allow_inapplicable_actions=allow)
 
 
+def snap(state):
+    """what a state object looks like from outside: the flag and its serialized text re-read (facts are printed sorted)"""
+    return [bool(state.is_init), read_state_text(state.serialize())]
+
+
 def joint(job):
     """job: domain_text, problem_text, runs [{members, allow}], lines [str] | plan_path, allow, exporter_allow"""
     out = {"nums": {}, "regex": mate.JOINT_ACTION_REGEX, "regex_expected": mate.JOINT_ACTION_REGEX == EXPECTED_REGEX}
@@ -92,13 +97,18 @@ def joint(job):
             return out
         runs = []
         for r in job.get("runs", []):
+            s_in = create_initial_state(problem)
+            before = snap(s_in)
+            nxt = None
             try:
-                nxt = call_apply_actions(domain, create_initial_state(problem), r["members"], bool(r["allow"]), problem.objects)
+                nxt = call_apply_actions(domain, s_in, r["members"], bool(r["allow"]), problem.objects)
                 runs.append({"value": read_state_text(nxt.serialize())})
             except ValueError as e:
                 runs.append({"refused": str(e)[:100]})
             except Exception as e:  # noqa
                 runs.append(exc(e))
+            # the state passed in is as before the call and the result is another object
+            runs[-1]["intact"] = snap(s_in) == before and nxt is not s_in
         out["runs"] = runs
         if "plan_path" in job:
             with open(job["plan_path"], "rt") as fh:
@@ -116,6 +126,8 @@ def joint(job):
             return out
         out["steps"] = [{"pre": read_state_text(t.previous_state.serialize()), "ops": [str(o) for o in t.joint_action],
                          "post": read_state_text(t.next_state.serialize())} for t in triplets]
+        out["plan_intact"] = (all(t.next_state is not t.previous_state for t in triplets)
+                              and read_state_text(create_initial_state(problem).serialize()) == out["init"])
         try:
             text = "".join(MultiAgentTrajectoryExporter.export(triplets))
             out["export"] = text
@@ -123,6 +135,120 @@ def joint(job):
                 out["nums"].setdefault(k, v)
         except Exception as e:  # noqa
             out["export_raised"] = exc(e)
+        return out
+    finally:
+        cleanup(tmp)
+
+
+# ------------------------------------------------------------------------------------------------ sequences
+def _observe_triplets(exporter_cls, triplets, out):
+    out["steps"] = [{"pre": read_state_text(t.previous_state.serialize()), "ops": [str(o) for o in t.joint_action],
+                     "post": read_state_text(t.next_state.serialize())} for t in triplets]
+    try:
+        text = "".join(exporter_cls.export(triplets))
+        out["export"] = text
+        for k, v in number_table(text).items():
+            out["nums"].setdefault(k, v)
+    except Exception as e:  # noqa
+        out["export_raised"] = exc(e)
+
+
+def sequence(job):
+    """ONE process, objects reused: every domain text is parsed once, every problem once (with the Domain object of its
+    index), every exporter is built once, the initial state OBJECT of a problem is built once and handed to every direct
+    call on it, a returned state object may be handed to later calls, plan files are written to ONE path again and again.
+    job: domains [text], problems [{domain, text}], exporters [{domain, allow}], steps [
+           {kind: apply,   problem, state: "init" | index of an earlier apply step that returned, members, allow}
+           {kind: plan,    problem, exporter, lines, allow, via: "seq" | "file"}
+           {kind: triplet, problem, exporter, line, allow}        # create_multi_agent_triplet on the shared init object
+         ]
+    Every step reports what THAT call was given (the input state as serialized just before the call) and what it
+    answered; plus 'intact': the state object passed in looks as before and the answer is another object."""
+    out = {"nums": {}, "regex": mate.JOINT_ACTION_REGEX, "regex_expected": mate.JOINT_ACTION_REGEX == EXPECTED_REGEX}
+    tmp = []
+    try:
+        domains, problems, inits, first_init = [], [], [], []
+        for dtext in job["domains"]:
+            dpath = write_tmp(dtext, ".pddl")
+            tmp.append(dpath)
+            for k, v in number_table(dtext).items():
+                out["nums"].setdefault(k, v)
+            domains.append(DomainParser(dpath).parse_domain())
+        out["vocab"] = [vocab(d) for d in domains]
+        out["objects"] = []
+        for p in job["problems"]:
+            ppath = write_tmp(p["text"], ".pddl")
+            tmp.append(ppath)
+            prob = ProblemParser(ppath, domains[p["domain"]]).parse_problem()
+            problems.append(prob)
+            out["objects"].append([[n, o.type.name] for n, o in prob.objects.items()])
+            inits.append(create_initial_state(prob))
+            first_init.append(snap(inits[-1]))
+        out["inits"] = [s[1] for s in first_init]
+        exporters = [MultiAgentTrajectoryExporter(domains[e["domain"]], allow_invalid_actions=bool(e["allow"]))
+                     for e in job["exporters"]]
+        plan_path = write_tmp("", ".solution")
+        tmp.append(plan_path)
+        returned = {}
+        steps_out = []
+        for idx, st in enumerate(job["steps"]):
+            k = st["problem"]
+            prob = problems[k]
+            dom = domains[job["problems"][k]["domain"]]
+            o = {"nums": {}}
+            if st["kind"] == "apply":
+                s_in = inits[k] if st["state"] == "init" else returned.get(st["state"])
+                if s_in is None:
+                    o["skipped"] = "the step whose answer was to be reused did not return a state"
+                    steps_out.append(o)
+                    continue
+                before = snap(s_in)
+                o["state_in"] = before[1]
+                nxt = None
+                try:
+                    nxt = call_apply_actions(dom, s_in, st["members"], bool(st["allow"]), prob.objects)
+                    o["run"] = {"value": read_state_text(nxt.serialize())}
+                    returned[idx] = nxt
+                except ValueError as e:
+                    o["run"] = {"refused": str(e)[:100]}
+                except Exception as e:  # noqa
+                    o["run"] = exc(e)
+                o["run"]["intact"] = snap(s_in) == before and nxt is not s_in
+            elif st["kind"] == "plan":
+                ex = exporters[st["exporter"]]
+                lines = list(st["lines"])
+                try:
+                    if st.get("via") == "file":
+                        with open(plan_path, "wt") as fh:             # the same path, rewritten
+                            fh.writelines(lines)
+                        with open(plan_path, "rt") as fh:
+                            lines = fh.readlines()
+                        triplets = ex.parse_plan(prob, plan_path=plan_path, allow_inapplicable_actions=bool(st["allow"]))
+                    else:
+                        triplets = ex.parse_plan(prob, action_sequence=lines, allow_inapplicable_actions=bool(st["allow"]))
+                    _observe_triplets(MultiAgentTrajectoryExporter, triplets, o)
+                    o["intact"] = all(t.next_state is not t.previous_state for t in triplets)
+                except Exception as e:  # noqa
+                    o["trace_raised"] = exc(e)
+                    o["intact"] = True
+                o["lines"] = lines
+                # the problem still yields the initial state it yielded when it was parsed, the shared object too
+                o["intact"] = o["intact"] and snap(create_initial_state(prob)) == first_init[k] and snap(inits[k]) == first_init[k]
+            elif st["kind"] == "triplet":
+                ex = exporters[st["exporter"]]
+                s_in = inits[k]
+                before = snap(s_in)
+                o["lines"] = [st["line"]]
+                t = None
+                try:
+                    t = ex.create_multi_agent_triplet(s_in, st["line"], problem_objects=prob.objects,
+                                                      allow_inapplicable_actions=bool(st["allow"]))
+                    _observe_triplets(MultiAgentTrajectoryExporter, [t], o)
+                except Exception as e:  # noqa
+                    o["trace_raised"] = exc(e)
+                o["intact"] = snap(s_in) == before and (t is None or t.next_state is not s_in)
+            steps_out.append(o)
+        out["steps_out"] = steps_out
         return out
     finally:
         cleanup(tmp)
